@@ -284,3 +284,53 @@ class OpenCounter:
     def close(self) -> None:
         import os
         os.close(self.fd)
+
+
+# ---------------------------------------------------------------------------
+# uuid seam: directory / file names are the only other source of
+# nondeterminism of the writer; their *order* is made an explicit parameter
+# ---------------------------------------------------------------------------
+class FakeUuid:
+    """Stands in for the `uuid` module inside sedpack's writer modules:
+    uuid4().hex values are unique and either increasing or decreasing in
+    lexicographic order."""
+
+    class _U:
+
+        def __init__(self, hexv):
+            self.hex = hexv
+
+        def __str__(self):
+            return self.hex
+
+    def __init__(self, order: str) -> None:
+        self.order = order
+        self.n = 0
+
+    def uuid4(self):
+        self.n += 1
+        v = self.n if self.order == "ascending" else (1 << 128) - 1 - self.n
+        return FakeUuid._U(f"{v:032x}")
+
+
+import contextlib  # noqa: E402
+
+
+@contextlib.contextmanager
+def uuid_order(order):
+    """order: None (real uuids) | 'ascending' | 'descending'."""
+    if order is None:
+        yield
+        return
+    import sedpack.io.dataset_writing as dw
+    import sedpack.io.dataset_filler as df
+    import sedpack.io.utils as du
+    fake = FakeUuid(order)
+    saved = [(m, m.uuid) for m in (dw, df, du) if hasattr(m, "uuid")]
+    for m, _ in saved:
+        m.uuid = fake
+    try:
+        yield
+    finally:
+        for m, u in saved:
+            m.uuid = u
